@@ -250,6 +250,11 @@ def world_order_cases(ctx):
             l["setUp"] = l["tearDown"] = True
         for l in rng.sample(non_unit, min(len(non_unit), rng.choice([1, 2]))):
             l["tearDownFaults"] = [[999999, 2]]
+        if i % 2 == 0:
+            # layers named by strings with dots and regex metacharacters (instance layers), resumed in subprocesses
+            inst = [l for l in non_unit if l["kind"] == "instance"]
+            for l, nm in zip(inst, rng.sample(worlds.ODD_LAYER_NAMES, min(len(inst), len(worlds.ODD_LAYER_NAMES)))):
+                l["name"] = nm
         o = {"verbose": rng.choice([0, 1]), "processes": 1, "argseed": rng.randint(0, 10 ** 6)}
         cases.append(cw.Case(w, o))
     cw.run_real_cases(ctx, cases)
@@ -259,7 +264,7 @@ def world_order_cases(ctx):
         ctx.bump("world-order-runs")
         if c.obs.timeout:
             continue
-        bad = cw.run_order_violation(c)
+        bad = cw.run_order_violation(c, strict=True)
         if bad:
             ctx.violation(bad, c.replay_obj(), signature="world-run-order")
 
